@@ -52,9 +52,9 @@ var harness = &seqmc.Harness{
 			}
 		}
 		return []seqmc.Config{
-			{Name: "2 types x 2 pipeline ids x 4 node ids", Depth: 6,
+			{Name: "2 types x 2 pipeline ids x 4 node ids", Depth: 7,
 				Alphabet: alphabet([]string{"t1", "t2"}, []string{"p1", "p2"}, []string{"n2,n3", "n1,n2,n3", "n2,n4", "n1,n1,n2,n3"}, []string{"n1", "n2", "n3", "n4"})},
-			{Name: "failing Close on n2,n3", Depth: 5,
+			{Name: "failing Close on n2,n3", Depth: 7,
 				Alphabet: alphabet([]string{"t1"}, []string{"p1", "p2"}, []string{"n2,n3", "n1,n2,n3"}, []string{"n1", "n2", "n3"})},
 		}
 	},
@@ -72,6 +72,6 @@ func main() {
 		"breadth-first search over all call histories up to the depth bound of {RegisterNode (incl. overwrite), RegisterPipeline (incl. overwrite and a list with a duplicated id), RemovePipeline, RemovePipelineAndNodes, RemoveNode (each also with an already cancelled context), probe Send} on the real Broker, states de-duplicated on the reflective dump of the Broker's entire private state (harness objects named id@age) plus the reference model. After every call: its result, which node objects were closed (exactly the expected ones, once) and the probe deliveries are compared with the model 'a node is in use iff a currently registered pipeline lists it'.",
 		[]string{
 			"'node' is the id registration: which object a re-registered id closes is an observation, not a violation",
-			"depth 6 (quick) / 8 (thorough); 2 event types, 2-3 pipeline ids, 4 node ids",
+			"depth 7 (quick) / 8 (thorough); 2 event types, 2-3 pipeline ids, 4 node ids",
 		}, 150*time.Second, 45*time.Minute))
 }
